@@ -70,7 +70,7 @@ struct Conv {
     b: usize, // bytes target -> local
     chunk: usize,
     pause_every: usize,
-    /// SOCKS entries: the client does not wait for the proxy's replies - greeting, request and the first bytes of the
+    /// SOCKS and HTTP CONNECT entries: the client does not wait for the proxy's replies - greeting, request and the first bytes of the
     /// conversation go out in one write (an optimistic / pipelining client)
     optimistic: bool,
 }
@@ -365,7 +365,15 @@ async fn enter(env: &Env, c: &Conv) -> Result<Box<dyn Duplex>, String> {
             };
             let thost = env.dual_host.as_deref().unwrap_or("127.0.0.1");
             let req = format!("CONNECT {thost}:{tport} HTTP/1.1\r\nHost: {thost}:{tport}\r\n\r\n");
-            s.write_all(req.as_bytes()).await.map_err(|x| e("http connect", x))?;
+            if c.optimistic {
+                // the request head and the first bytes for the tunnel (the conversation's id) in one write: a client that does
+                // not wait for the 200 (RFC 9110 9.3.6 allows it; the proxy must still answer, and hand the bytes on)
+                let mut all = req.into_bytes();
+                all.extend_from_slice(&c.id.to_be_bytes());
+                s.write_all(&all).await.map_err(|x| e("http connect with early data", x))?;
+            } else {
+                s.write_all(req.as_bytes()).await.map_err(|x| e("http connect", x))?;
+            }
             let mut head = Vec::new();
             let mut b = [0u8; 1];
             while !head.ends_with(b"\r\n\r\n") {
@@ -1148,7 +1156,7 @@ fn gen_convs(rng: &mut Rng64, n: usize, big: usize, base_id: u64) -> Vec<Conv> {
             // an answer smaller and larger than any plausible intermediate buffer
             b = *rng.pick(&[1usize, 100, 3000, 8191, 8192, 70_000]);
         }
-        let optimistic = matches!(entry, Entry::Socks5V4 | Entry::Socks5V6 | Entry::Socks5Domain | Entry::UnixSocks5) && rng.chance(1, 3);
+        let optimistic = matches!(entry, Entry::Socks5V4 | Entry::Socks5V6 | Entry::Socks5Domain | Entry::UnixSocks5 | Entry::HttpConnect | Entry::UnixHttp) && rng.chance(1, 3);
         Conv { id: base_id + i as u64, entry, kind, a, b, chunk, pause_every, optimistic }
     }).collect()
 }
